@@ -2,6 +2,7 @@ package rules
 
 import (
 	"fmt"
+	"go/constant"
 	"go/token"
 	"go/types"
 	"regexp"
@@ -80,6 +81,10 @@ func runC16(e *Env) {
 		v, need, ok := nopanic.Need(site.Instr)
 		key := fmt.Sprintf("%s/bounds/%s", load.FuncName(site.Fn), describeSite(site.Instr))
 		if !ok {
+			if why, good := indexInCountedLoop(site.Instr); good {
+				r.OK("E6.panic", key, posStr, why)
+				continue
+			}
 			r.Bad("E6.panic", key, posStr, "unproven bounds check with a non-constant index and no recognisable guard: can panic on arbitrary text")
 			continue
 		}
@@ -601,28 +606,90 @@ func checkWindow(e *Env, p *load.Program) {
 		return
 	}
 	res := origin.NewResolver()
-	// the marker test: strings.HasPrefix(line, <const>) where line = Scanner.Text()
-	var marker *ssa.Call
+	// the marker test: strings.HasPrefix(line, "TEXT") where line = Scanner.Text(), inline or in a helper of the package
+	// whose boolean result is true exactly when its argument has the prefix
+	isMarkerPrefix := func(call *ssa.Call, arg ssa.Value) bool {
+		if !flow.CalleeIs(call, "strings", "HasPrefix") || call.Call.Args[0] != arg {
+			return false
+		}
+		s, ok := flow.ConstString(call.Call.Args[1])
+		return ok && s == "TEXT"
+	}
+	var marker ssa.Value // the boolean "line is a function marker"
+	var line ssa.Value
 	for _, c := range flow.Calls(fn) {
 		call, ok := c.(*ssa.Call)
-		if !ok || !flow.CalleeIs(call, "strings", "HasPrefix") {
+		if !ok || len(call.Call.Args) == 0 {
 			continue
 		}
-		if tc, ok := call.Call.Args[0].(*ssa.Call); ok && flow.CalleeIs(tc, "bufio", "Scanner.Text") {
-			if s, ok := flow.ConstString(call.Call.Args[1]); ok && s == "TEXT" {
+		tc, ok := call.Call.Args[0].(*ssa.Call)
+		if !ok || !flow.CalleeIs(tc, "bufio", "Scanner.Text") {
+			continue
+		}
+		if isMarkerPrefix(call, tc) {
+			marker, line = call, tc
+			continue
+		}
+		h := flow.Callee(call)
+		if h == nil || h.Pkg == nil || h.Pkg.Pkg.Path() != load.PkgDisasm || len(h.Blocks) == 0 || len(h.Params) != 1 {
+			continue
+		}
+		// which result is the boolean
+		bi := -1
+		for k := 0; k < h.Signature.Results().Len(); k++ {
+			if bt, ok := h.Signature.Results().At(k).Type().Underlying().(*types.Basic); ok && bt.Kind() == types.Bool {
+				bi = k
+			}
+		}
+		if bi < 0 {
+			continue
+		}
+		equiv := true
+		n := 0
+		for _, ret := range flow.Returns(h) {
+			rs := flow.RetResults(ret)
+			v := rs[bi]
+			if pc, ok := v.(*ssa.Call); ok && isMarkerPrefix(pc, h.Params[0]) {
+				n++
+				continue
+			}
+			k, isK := v.(*ssa.Const)
+			if !isK || k.Value == nil {
+				equiv = false
+				continue
+			}
+			want := constant.BoolVal(k.Value)
+			okc := false
+			for _, cd := range flow.DomConds(ret.Block()) {
+				cn := flow.Norm(cd)
+				if pc, ok := cn.V.(*ssa.Call); ok && isMarkerPrefix(pc, h.Params[0]) && cn.Pol == want {
+					okc = true
+				}
+			}
+			if !okc {
+				equiv = false
+			}
+			n++
+		}
+		if equiv && n > 0 {
+			line = tc
+			if h.Signature.Results().Len() == 1 {
 				marker = call
+			} else {
+				marker = flow.ResultN(call, bi)
 			}
 		}
 	}
 	if marker == nil {
-		r.Bad("E3.window", "parser.Parse/marker-test", p.Pos(fn.Pos()), "no test `strings.HasPrefix(line, \"TEXT\")` on the scanned line: function boundaries are not recognised")
+		r.Bad("E3.window", "parser.Parse/marker-test", p.Pos(fn.Pos()), "no test `strings.HasPrefix(line, \"TEXT\")` on the scanned line (inline or in a helper that is true exactly for such lines): function boundaries are not recognised")
 		return
 	}
-	line := marker.Call.Args[0]
 	var markerIf *ssa.If
-	for _, ref := range *marker.Referrers() {
-		if ifi, ok := ref.(*ssa.If); ok {
-			markerIf = ifi
+	if marker.Referrers() != nil {
+		for _, ref := range *marker.Referrers() {
+			if ifi, ok := ref.(*ssa.If); ok {
+				markerIf = ifi
+			}
 		}
 	}
 	if markerIf == nil {
@@ -859,4 +926,52 @@ func checkWindow(e *Env, p *load.Program) {
 		}
 		r.Check(good, "E3.named", "parser.Parse/name", p.Pos(resApp.Pos()), "Name = SyscallNumbers[Num] of the same element, appended only on the `found` edge", detail)
 	}
+}
+
+
+// indexInCountedLoop: the instruction indexes the slice a counted loop ranges over with an expression that stays in
+// range for every iteration: i (0 <= i < len) or len-1-i.
+func indexInCountedLoop(in ssa.Instruction) (string, bool) {
+	ia, ok := in.(*ssa.IndexAddr)
+	var x, idx ssa.Value
+	if ok {
+		x, idx = ia.X, ia.Index
+	} else if ix, ok := in.(*ssa.Index); ok {
+		x, idx = ix.X, ix.Index
+	} else {
+		return "", false
+	}
+	for _, l := range flow.CountedLoops(in.Parent()) {
+		if !l.Contains(in.Block()) || in.Block() == l.Header {
+			continue
+		}
+		if x != l.Over {
+			continue
+		}
+		// the slice must not be re-assigned: l.Over is one SSA value (a parameter or a value defined before the loop)
+		if def, ok := l.Over.(ssa.Instruction); ok && l.Contains(def.Block()) {
+			continue
+		}
+		isLen := func(v ssa.Value) bool {
+			c, ok := v.(*ssa.Call)
+			if !ok {
+				return false
+			}
+			bi, ok := c.Call.Value.(*ssa.Builtin)
+			return ok && bi.Name() == "len" && c.Call.Args[0] == l.Over
+		}
+		a := affineOf(idx, l.Phi, isLen, 0)
+		if !a.ok {
+			continue
+		}
+		// the visited index is i = phi + D, 0 <= i <= len-1
+		switch {
+		case a.a == 1 && a.l == 0 && a.c == l.D:
+			return "index is the loop's own index over the same slice (0 <= i < len)", true
+		case a.a == -1 && a.l == 1 && a.c == -1-l.D:
+			// len - 1 - i with i = phi + D:  -phi + len - 1 - D
+			return "index is len-1-i for the loop's own index i over the same slice (0 <= len-1-i < len)", true
+		}
+	}
+	return "", false
 }
